@@ -62,6 +62,12 @@ def make_nd(r, nn, dn, ctor):
         d = (1 << k) + r.choice([-1, 0, 0, 1])
         if d <= 0 or gen.nlimbs(d) != dn: d = 1 << (64 * (dn - 1))
         n = gen.nat(r, nn, r.choice(['ones', 'rand', 'bit', 'runs']))
+    elif ctor == 'nearexact':
+        # n = q*d + {0,1,2}: the approximate quotient of the precomputed-inverse division lands within 2 ulp of an integer, which is the
+        # only way into mpn_inv_divappr_q_n's 'multiply out' correction (probability 2/B on random data; F1 lived there)
+        d = gen.nat(r, dn, r.choice(['rand', 'rand', 'special']))
+        q = gen.nat(r, max(1, nn - dn + r.choice([0, 0, 1])), r.choice(['rand', 'ones', 'special', 'rand']))
+        n = q * d + r.choice([0, 0, 1, 2])
     else:  # nearmul: n just below / above q*d
         d = gen.nat(r, dn, r.choice(['rand', 'special', 'topmax', 'tophalf']))
         q = gen.nat(r, max(1, nn - dn + 1), r.choice(['rand', 'ones', 'special']))
@@ -109,6 +115,10 @@ def sizes(th, tier):
         for qn in ([t, t + 1] if q else [t - 1, t, t + 1, t + 30]):
             for dn in [qn + 1, qn + 2, 2 * qn]:
                 for c in (('nearmul', 'ones') if q else ('nearmul', 'ones', 'top2', 'rand')): S.append((dn + qn - 1, dn, c))
+    if IQ <= 6000:
+        for dn in ([IQ, IQ + 12] if q else [IQ, IQ + 1, IQ + 12, IQ + 300, 2 * IQ]):
+            for off in (0, 1, 2, 3, 5, 40, dn):
+                for rep in range(2 if q else 4): S.append((2 * dn + off, dn, 'nearexact'))
     if not q and 'INV_DIVAPPR_Q_THRESHOLD' in th and th['INV_DIVAPPR_Q_THRESHOLD'] < 20000:
         t = th['INV_DIVAPPR_Q_THRESHOLD']
         for qn in (t - 1, t + 1, t + 2):
